@@ -35,7 +35,7 @@ def run_checks(wt, props):
         if not os.path.exists(os.path.join(VERIF, 'sa', 'props', prop.lower() + '.py')):
             res[prop] = 'no check yet'
             continue
-        code, out = sh('%s -m sa check %s --root %s --no-write' % (PY, prop, wt), cwd=VERIF)
+        code, out = sh('timeout 180 %s -m sa check %s --root %s --no-write' % (PY, prop, wt), cwd=VERIF)
         lines = [l for l in out.splitlines() if l.startswith(('VIOLATION', 'ANALYSIS-ERROR', '  rule'))]
         res[prop] = {'exit': code, 'report': lines[:8]}
     return res
